@@ -61,6 +61,11 @@ CHECKS: dict[str, dict] = {
         technique="complete enumeration of arrival schedules (cuts x delay tuples) x timeouts x retry intervals on a virtual clock, spurious readiness as bounded deviations; oracle = exact virtual elapsed time against the reference 'return at A iff A < T else TimeoutError at T'",
         text="For every enumerated arrival schedule the blocking call returns the packet at the instant its last byte arrived iff that is before the deadline, else raises TimeoutError exactly T after it started (never earlier, never later), T=0 never waits, iterators share one budget across packets. Ties with the deadline are excluded and counted. One known finding (TLS-like short reads with T=0) is keyed separately.",
     ),
+    "C05": dict(
+        cat="model_checking", ref="DESIGN.md §3 C05", engine="zoo + E1/E2/E3",
+        technique="exhaustive enumeration of datagram sequences (valid, truncated at every offset, extra byte, concatenated, empty) over the real DatagramProtocol and four real endpoint/client implementations on fake datagram sockets, each datagram compared with a fresh-object reference decode",
+        text="Every serializer importable here (plus pickle with a restricted unpickler): packets round-trip through one datagram; for all datagram sequences up to the bound each datagram yields exactly one result that depends on that datagram alone; k sends produce exactly k datagrams equal to make_datagram(p); nothing is carried over between receives, on blocking and asynchronous endpoints and UDP clients.",
+    ),
 }
 
 NOT_YET: dict[str, str] = {}
